@@ -184,6 +184,14 @@ def _child(mod, spec, out_path, timeout, idx=0):
         if idx % 3 == 1 and os.environ.get("VERIF_NO_DEBUG_LOGGING") != "1":
             _silent_debug_logging()
             acc.count("shards_run_with_library_debug_logging_on")
+        if idx % 3 == 2 and os.environ.get("VERIF_NO_AMBIENT", "0") != "1":
+            # ambient arithmetic settings of the embedding application: its decimal context (few digits, rounding down, in this
+            # thread and as the default of new threads) is its own business and must not reach into what the library computes
+            import decimal
+            for ctx in (decimal.getcontext(), decimal.DefaultContext):
+                ctx.prec = 5
+                ctx.rounding = decimal.ROUND_DOWN
+            acc.count("shards_run_with_a_coarse_decimal_context")
         lib_ = sys.modules.get("vf.lib")
         if lib_ is not None and os.environ.get("VERIF_HOSTILE", "1") != "0":
             for k_ in lib_.HOSTILE:
